@@ -18,6 +18,11 @@ pub fn tape_push(v: u64) {
     TAPE[n].store(v, Ordering::Relaxed);
     FILLED.store(n + 1, Ordering::Relaxed);
 }
+/// Forgets what was pushed and consumed so far (harnesses call it after constructing their objects).
+pub fn tape_reset() {
+    FILLED.store(0, Ordering::Relaxed);
+    CURSOR.store(0, Ordering::Relaxed);
+}
 /// Number of values consumed so far.
 pub fn tape_cursor() -> usize { CURSOR.load(Ordering::Relaxed) }
 pub fn seed(v: u64) { NEXT.store(v, Ordering::Relaxed); }
